@@ -235,7 +235,8 @@ def blockLine (v : Variant) (line : Str) : Option BlockLine :=
 
 /-! ## commands -/
 
-inductive Extra | none | optional (b : Bool) | append (b : Bool)
+/-- `implicit` = `{"optional": True, "silent": True}`, the extra of the action appended for the default product -/
+inductive Extra | none | optional (b : Bool) | append (b : Bool) | implicit
   deriving DecidableEq, Repr
 
 structure Action where
@@ -534,5 +535,112 @@ def actions (v : Variant) (env : Env) : List Chain → Res (List Action)
 /-- `Table(file, topProduct).actions(flavor, setupType)` for a file with contents `text` -/
 def tableActions (v : Variant) (pdir : Option Str) (env : Env) (text : Str) : Res (List Action) :=
   (parse v pdir text).bind fun chains => actions v env chains
+
+/-! ## the default product
+
+`_read` ends by appending `('True', [Action("implicit", "setupRequired", args, {"optional": True, "silent": True})], [])`
+for `hooks.config.Eups.defaultProduct` (usually `toolchain`) unless `addDefaultProduct is False` or no name is
+configured; `args` = the name, the version if one is configured, `--tag` and the tag if one is. -/
+
+structure DefaultProduct where
+  name : Str
+  version : Option Str
+  tag : Option Str
+  deriving DecidableEq, Repr
+
+def sDashDashTag : Str := Str.ofString "--tag"
+
+def implicitAction (d : DefaultProduct) : Action :=
+  ⟨Cmd.setupRequired.name,
+   dropF ([d.name] ++ d.version.toList ++ (match d.tag with | some t => [sDashDashTag, t] | none => [])), .implicit⟩
+
+/-- `Table._read` with the default product (`none`: switched off) -/
+def parseD (v : Variant) (pdir : Option Str) (dflt : Option DefaultProduct) (text : Str) : Res (List Chain) :=
+  (parse v pdir text).bind fun chains =>
+    .ok (match dflt with
+      | some d => chains ++ [unconditional [implicitAction d]]
+      | none => chains)
+
+def tableActionsD (v : Variant) (pdir : Option Str) (dflt : Option DefaultProduct) (env : Env) (text : Str) :
+    Res (List Action) :=
+  (parseD v pdir dflt text).bind fun chains => actions v env chains
+
+/-! ## `Table.getDeclareOptions`
+
+`eups declare` reads `declareOptions(k = v, …)` commands with a second copy of the branch-selection loop. -/
+
+/-- `s.split(c)` -/
+def splitOn (c : Nat) : Str → Str → List Str
+  | cur, [] => [cur]
+  | cur, x :: xs => if x == c then cur :: splitOn c [] xs else splitOn c (cur ++ [x]) xs
+
+def rstrip (s : Str) : Str := (s.reverse.dropWhile Str.isSpace).reverse
+
+/-- white space next to a removed `=`: after it for every piece but the first, before it for every piece but the last -/
+def trimPieces : Bool → List Str → List Str
+  | _, [] => []
+  | first, [p] => [if first then p else dropSpaces p]
+  | first, p :: q :: r => rstrip (if first then p else dropSpaces p) :: trimPieces false (q :: r)
+
+/-- `re.split(r"\s*=\s*", opt)` -/
+def splitEq (opt : Str) : List Str := trimPieces true (splitOn 61 [] opt)
+
+/-- `for i in range(0, len(args) - 1, 2): k, v = args[i], args[i + 1]` -/
+def pairUp : List Str → List (Str × Str)
+  | k :: v :: r => (k, v) :: pairUp r
+  | _ => []
+
+/-- a Python `dict` with string keys, in insertion order -/
+abbrev Dict := List (Str × Str)
+
+/-- `d[k] = v` -/
+def dictSet (d : Dict) (k v : Str) : Dict :=
+  if d.any (·.1 == k) then d.map (fun p => if p.1 == k then (k, v) else p) else d ++ [(k, v)]
+
+/-- the words of a `declareOptions` command: every argument split at `=`, empty pieces dropped -/
+def optWords (args : List Str) : List Str := (args.flatMap splitEq).filter (fun w => !w.isEmpty)
+
+/-- `for a in block: if a.cmd == Action.declareOptions: …` -/
+def blockOpts (opts : Dict) (as : List Action) : Dict :=
+  as.foldl (fun o a =>
+    if a.cmd == Cmd.declareOptions.name then (pairUp (optWords a.args)).foldl (fun o p => dictSet o p.1 p.2) o
+    else o) opts
+
+/-- the `while LBB` loop of `getDeclareOptions` for one entry of `_actions`: the block whose options are read -/
+def selectD (v : Variant) (env : Env) : Chain → Res (List Action)
+  | [] => .ok []
+  | [_] => .err .unmodelled
+  | .cond c :: b :: rest =>
+    (if v.d3 then evalCond env (fuelFor c) c else CondPinned.evalCond env (fuelFor c) c).bind fun t =>
+      if t then
+        match b with
+        | .blk as => .ok as                                   -- `block = ifBlock; LBB = None`
+        | .cond _ => .err .unmodelled
+      else
+        match rest with
+        | [.blk as] => .ok as                                 -- `block = elseBlock[0]; LBB = None`
+        | [.cond _] => .err .unmodelled
+        | _ => selectD v env rest                             -- `LBB = elseBlock; continue`
+  | .blk _ :: _ :: _ => .err .typeErr
+
+/-- `for LBB in self._actions` of `getDeclareOptions` (with the repair of D111) -/
+def declOptsGo (v : Variant) (env : Env) : Dict → List Chain → Res Dict
+  | d, [] => .ok d
+  | d, ch :: rest => (selectD v env ch).bind fun as => declOptsGo v env (blockOpts d as) rest
+
+/-- the same loop as pinned: `if len(elseBlock) > 13: … pdb.set_trace()` at the head of the `while` body stops in
+the debugger (`none`) on a chain of more than seven branches (only the first pass over a chain can see one) -/
+def declOptsGoPinned (v : Variant) (env : Env) : Dict → List Chain → Res (Option Dict)
+  | d, [] => .ok (some d)
+  | d, ch :: rest =>
+    if ch.length > 15 then .ok none
+    else (selectD v env ch).bind fun as => declOptsGoPinned v env (blockOpts d as) rest
+
+/-- `Table(file, topProduct).getDeclareOptions(flavor, setupType)` for a file with contents `text` -/
+def tableDeclOpts (v : Variant) (pdir : Option Str) (env : Env) (text : Str) : Res Dict :=
+  (parse v pdir text).bind fun chains => declOptsGo v env [] chains
+
+def tableDeclOptsPinned (v : Variant) (pdir : Option Str) (env : Env) (text : Str) : Res (Option Dict) :=
+  (parse v pdir text).bind fun chains => declOptsGoPinned v env [] chains
 
 end EupsModel.TableParse
